@@ -641,6 +641,12 @@ impl Mon {
                 self.r.count("C06.noop_deposits_skipped");
                 continue;
             }
+            // "brought up to the current time": the bank's accrual clock must read now afterwards,
+            // whether or not there was any debt to charge - otherwise the next accrual (even in the
+            // same second) charges the period again
+            if post.last_update != info.now {
+                self.r.violate("C06", &format!("C06/{}/bank-accrual-clock-not-brought-to-now", info.kind.name()), format!("bank {}: last_update {} -> {} at time {}", bk, pre.last_update, post.last_update, info.now));
+            }
             let ra = match refm::ref_accrue(pre, &g, dt) {
                 Some(r) => r,
                 None => {
